@@ -2,5 +2,8 @@
 package drivers
 
 import (
+	_ "verif/mc/drivers/c04"
+	_ "verif/mc/drivers/c11"
+	_ "verif/mc/drivers/c14"
 	_ "verif/mc/drivers/c19"
 )
